@@ -158,10 +158,14 @@ func (c *tracingHTTP2Conn) handleFrame(frame http2.Frame, isRequest bool) {
 			c.receiveResponseLocked(stream, frame)
 		case isRequest:
 			// request trailers
-			stream.builder.trace.Request.Trailer = makeHeaders(frame)
+			if req := stream.builder.trace.Request; req != nil {
+				req.Trailer = makeHeaders(frame)
+			}
 		default:
 			// response trailers
-			stream.builder.trace.Response.Trailer = makeHeaders(frame)
+			if resp := stream.builder.trace.Response; resp != nil {
+				resp.Trailer = makeHeaders(frame)
+			}
 		}
 		if frame.StreamEnded() {
 			c.closeStreamLocked(frame.StreamID, stream, isRequest, nil)
@@ -173,7 +177,7 @@ func (c *tracingHTTP2Conn) handleFrame(frame http2.Frame, isRequest bool) {
 		}
 		if isRequest {
 			stream.requestTracer.trace(frame.Data())
-		} else {
+		} else if stream.gotResponse {
 			stream.responseTracer.trace(frame.Data())
 		}
 		if frame.StreamEnded() {
@@ -246,9 +250,11 @@ func (c *tracingHTTP2Conn) closeStreamLocked(streamID uint32, stream *http2Strea
 	if isRequest {
 		stream.requestTracer.emitUnfinished()
 		stream.builder.add(&RequestBodyEnd{Err: err})
-	} else if stream.responseTracer.builder != nil {
+	} else {
 		stream.requestTracer.emitUnfinished()
-		stream.responseTracer.emitUnfinished()
+		if stream.gotResponse {
+			stream.responseTracer.emitUnfinished()
+		}
 		stream.builder.add(&ResponseBodyEnd{Err: err})
 	}
 }
@@ -259,7 +265,9 @@ func (c *tracingHTTP2Conn) setMaxStreamIDLocked(maxStreamID uint32, err error) {
 		if streamID > maxStreamID {
 			delete(c.streams, streamID)
 			stream.requestTracer.emitUnfinished()
-			stream.responseTracer.emitUnfinished()
+			if stream.gotResponse {
+				stream.responseTracer.emitUnfinished()
+			}
 			stream.builder.add(&ResponseBodyEnd{Err: err})
 		}
 	}
@@ -273,7 +281,9 @@ func (c *tracingHTTP2Conn) cancelAll(err error) {
 			delete(c.streams, streamID)
 			if c.isServer {
 				stream.requestTracer.emitUnfinished()
-				stream.responseTracer.emitUnfinished()
+				if stream.gotResponse {
+					stream.responseTracer.emitUnfinished()
+				}
 				stream.builder.add(&ResponseBodyEnd{Err: err})
 			} else {
 				// TODO: We shouldn't add RequestBodyEnd event if the trace
